@@ -156,7 +156,7 @@ def run(pid, tier, seed):
                           {"property": pid, "nodes": 4, "known": kn},
                           "all ordered tree shapes up to N nodes with awkward names (quotes, backslashes, spaces, non-ASCII, colliding), "
                           "2 start nodes, every stop subset, filtered-out subset, maxlevel 0..N, default and custom callbacks/options",
-                          lemmas=LEMMAS, select=False)
+                          lemmas=LEMMAS, select=False, quick_search=True)
     for e in known.for_property(pid):
         if e["status"] != "known":
             continue
